@@ -251,6 +251,9 @@ theorem simE (O : Oracle) (cfg : Config) : ∀ (e : Expr), fragE e = true → ok
       simp only [fragE, Bool.and_eq_true] at hf
       simp only [okT, Bool.and_eq_true] at hok
       simp only [namesE, List.mem_append] at hnt
+      simp only [visitE] at hv
+      split at hv
+      · simp at hv
       vopen hv
       obtain ⟨l1, d1, n1, hvl, r1, d2, n2, hvr, hv⟩ := hv
       rcases hE1 : ensure cfg "BinOp" "left" l1 n2 with ⟨l2, h1, n3⟩
